@@ -204,6 +204,18 @@ def assigns_item_keys(V, ast, pkg, key):
     k = ast[0]
     if k == 'field':
         base = ast[1]
+        from .calls import dotted_name
+        from .spec import SpecError
+        tn = dotted_name(base)
+        fn_ = prog.funcs.get(key)
+        pnames = [p['name'] for p in (fn_['params'] + fn_['freevars'] + fn_['results'])] if fn_ else []
+        if tn is not None and tn.split('.')[0] not in pnames:
+            try:
+                ty0 = resolve_type(w, tn, pkg)
+                if prog.kind(ty0) == 'struct':
+                    return {('f', ty0, ast[2])}
+            except SpecError:
+                pass
         ty = static_type(V, base, pkg, key)
         sp = prog.struct_of_ptr(ty) if ty in prog.types else None
         if sp is not None:
